@@ -84,7 +84,7 @@ def annotate_module(modpath, src, ov, report):
         if cont is not None and cont.kind == 'impl' and ' for ' in cont.name:
             tr, ty = cont.name.split(' for ')
             q_alt = '::'.join(p for p in ([modpath] if modpath else []) + it.path[:-1] if p)
-            q_alt = (q_alt + '::' if q_alt else '') + '%s as %s::%s' % (ty, tr, it.name)
+            q_alt = (q_alt + '::' if q_alt else '') + '%s@%s::%s' % (ty, tr, it.name)
         fo = None
         if q_alt and q_alt in ov.fns:
             fo = ov.fns[q_alt]
@@ -194,7 +194,7 @@ def annotate_module(modpath, src, ov, report):
             if cont is not None and cont.kind == 'impl' and ' for ' in cont.name:
                 tr, ty = cont.name.split(' for ')
                 qa = '::'.join(p for p in ([modpath] if modpath else []) + it.path[:-1] if p)
-                qa = (qa + '::' if qa else '') + '%s as %s::%s' % (ty, tr, it.name)
+                qa = (qa + '::' if qa else '') + '%s@%s::%s' % (ty, tr, it.name)
                 if qa in ov.fns:
                     q = qa
             spans.append((it.attrs_start, it.end, q))
